@@ -237,16 +237,44 @@ func (r *Run) noteClose(slot int, committed []tm.Pending) {
 	}
 }
 
+// noteHeadDeleted advances the stages of the finding head-delete-lost-after-compaction-and-restart.
+// 1 -> 2 (head compaction): only for samples the truncation removed from the head (t below the
+// head's new lower bound) - that is when their tombstone is truncated with them; a deleted sample
+// that stays in the head keeps its tombstone. 2 -> 3 (restart, call after Model.Restarted): only if
+// the restart lowered the bound to or below t (no block bounds the range), so that WAL replay can
+// bring the sample back; otherwise the entry is dropped.
 func (r *Run) noteHeadDeleted(from, to int) {
+	lower := r.M.Head.MinValid
+	if from == 1 && r.DB != nil {
+		// a compaction of an all-deleted range writes no block: only the implementation's head
+		// tells that the range was truncated
+		if hm := r.DB.Head().MinTime(); hm != math.MaxInt64 && hm > lower {
+			lower = hm
+		}
+	}
 	for _, m := range r.headDeleted {
 		for t, st := range m {
-			if st == from {
+			if st != from {
+				continue
+			}
+			switch {
+			case from == 1 && t >= lower:
+				// still in the head
+			case from == 2 && t < r.M.Head.MinValid:
+				delete(m, t)
+			default:
 				m[t] = to
 			}
 		}
 	}
-	if from == 2 && to == 3 { // reopen
-		r.noteBlockDeleted(2, 3)
+	if from == 2 && to == 3 { // restart
+		for _, m := range r.blockDeleted {
+			for t, st := range m {
+				if st == 2 && t >= r.M.Head.MinValid {
+					m[t] = 3 // the block bound that kept WAL replay away from t is gone
+				}
+			}
+		}
 	}
 }
 
@@ -753,13 +781,13 @@ func (r *Run) exec(op Op) error {
 		}
 		r.createdThisSession = map[int]bool{}
 		r.lastRef = map[int]storage.SeriesRef{} // series refs are in-memory ids of one DB instance
-		r.noteHeadDeleted(2, 3)
 		for s, st := range r.dupStage {
 			if st == 1 || st == 3 {
 				r.dupStage[s] = st + 1
 			}
 		}
 		r.M.Restarted(r.DB.Head().MinTime() != math.MaxInt64, r.DB.Head().MaxTime(), r.inOrderBlocksMaxT())
+		r.noteHeadDeleted(2, 3)
 		r.noteGC()
 		for s := range r.tainted {
 			r.taintedReopened[s] = true
@@ -811,13 +839,13 @@ func (r *Run) exec(op Op) error {
 		r.Trace = append(r.Trace, fmt.Sprintf("tsdb.Open; head min=%d max=%d appendableMinValid=%d; blocks %s", r.DB.Head().MinTime(), r.DB.Head().MaxTime(), amv, r.blocksString()))
 		r.createdThisSession = map[int]bool{}
 		r.lastRef = map[int]storage.SeriesRef{} // series refs are in-memory ids of one DB instance
-		r.noteHeadDeleted(2, 3)
 		for s, st := range r.dupStage {
 			if st == 1 || st == 3 {
 				r.dupStage[s] = st + 1
 			}
 		}
 		r.M.Restarted(r.DB.Head().MinTime() != math.MaxInt64, r.DB.Head().MaxTime(), r.inOrderBlocksMaxT())
+		r.noteHeadDeleted(2, 3)
 		r.noteGC()
 		for s := range r.tainted {
 			r.taintedReopened[s] = true
@@ -977,13 +1005,13 @@ func (r *Run) AdoptCrashed(dir string, inflight *Op) error {
 	r.Trace = append(r.Trace, fmt.Sprintf("tsdb.Open; head min=%d max=%d appendableMinValid=%d; blocks %s", r.DB.Head().MinTime(), r.DB.Head().MaxTime(), amv, r.blocksString()))
 	r.createdThisSession = map[int]bool{}
 	r.lastRef = map[int]storage.SeriesRef{}
-	r.noteHeadDeleted(2, 3)
 	for s, st := range r.dupStage {
 		if st == 1 || st == 3 {
 			r.dupStage[s] = st + 1
 		}
 	}
 	r.M.Restarted(r.DB.Head().MinTime() != math.MaxInt64, r.DB.Head().MaxTime(), r.inOrderBlocksMaxT())
+	r.noteHeadDeleted(2, 3)
 	r.noteGC()
 	for s := range r.tainted {
 		r.taintedReopened[s] = true
